@@ -8,7 +8,7 @@ __author__ = "ft"
 
 def responsebundles_from_list_of_dicts(bundles: list[dict]) -> list[ResponseBundle]:
     """Parse a list of KSR request bundle dicts."""
-    return [
+    res = [
         ResponseBundle(
             id=bundle["attrs"]["id"],
             inception=parse_datetime(bundle["value"]["Inception"]),
@@ -18,3 +18,6 @@ def responsebundles_from_list_of_dicts(bundles: list[dict]) -> list[ResponseBund
         )
         for bundle in bundles
     ]
+    # Sort bundles chronologically, like request bundles: "the last bundle of the last SKR" must
+    # not depend on the order of the bundles in the document.
+    return sorted(res, key=lambda x: (x.expiration, x.inception, x.id))
